@@ -27,7 +27,22 @@ int acf_vss_listener_main(int, char **);
 int crf_talker_main(int, char **);
 int crf_listener_main(int, char **);
 int crf_listener_b_main(int, char **);
+// the same programs compiled at -O0 (tools/build_o0.sh)
+int O0_acf_can_talker_main(int, char **);
+int O0_acf_can_listener_main(int, char **);
+int O0_cvf_talker_main(int, char **);
+int O0_cvf_listener_main(int, char **);
+int O0_aaf_talker_main(int, char **);
+int O0_aaf_listener_main(int, char **);
+int O0_hello_world_talker_main(int, char **);
+int O0_hello_world_listener_main(int, char **);
+int O0_acf_vss_talker_main(int, char **);
+int O0_acf_vss_listener_main(int, char **);
+int O0_crf_talker_main(int, char **);
+int O0_crf_listener_main(int, char **);
+int O0_crf_listener_b_main(int, char **);
 }
+#define PICK(f) (p.o0 ? O0_##f : f)
 
 namespace net {
 
@@ -85,6 +100,8 @@ Plan parse_plan(const std::string &text) {
             p.rseed = kv.u64("rseed", 1);
             p.skew[0] = kv.i64("skew0"); p.skew[1] = kv.i64("skew1"); p.skew[2] = kv.i64("skew2");
             p.stdin_eof = kv.u64("eof", 0);
+            p.o0 = kv.u64("o0", 0);
+            p.ethpad = kv.u64("ethpad", 0);
         } else if (kv.op == "can") {
             CanW w;
             w.t = kv.u64("t");
@@ -302,38 +319,38 @@ static void setup_nodes(RunState &rs) {
         ta.push_back("-c"); ta.push_back(std::to_string(p.count));
         add(ta, {"--canif", "vcan0"});
         add(la, {"--canif", "vcan1"});
-        w.add_node("talker", "acf-can-talker", acf_can_talker_main, ta, false);
-        rs.listener = w.add_node("listener", "acf-can-listener", acf_can_listener_main, la, true);
+        w.add_node("talker", "acf-can-talker", PICK(acf_can_talker_main), ta, false);
+        rs.listener = w.add_node("listener", "acf-can-listener", PICK(acf_can_listener_main), la, true);
     } else if (p.scen == "cvf") {
-        w.add_node("talker", "cvf-talker", cvf_talker_main, V({"-i", "eth0", "-d", kMacStream, "-m", mtt.c_str()}), false);
-        rs.listener = w.add_node("listener", "cvf-listener", cvf_listener_main, V({"-i", "eth0", "-d", kMacStream}), true);
+        w.add_node("talker", "cvf-talker", PICK(cvf_talker_main), V({"-i", "eth0", "-d", kMacStream, "-m", mtt.c_str()}), false);
+        rs.listener = w.add_node("listener", "cvf-listener", PICK(cvf_listener_main), V({"-i", "eth0", "-d", kMacStream}), true);
         w.nodes[0].stdin_first_min = 4;
     } else if (p.scen == "aaf") {
-        w.add_node("talker", "aaf-talker", aaf_talker_main, V({"-i", "eth0", "-d", kMacStream, "-m", mtt.c_str()}), false);
-        rs.listener = w.add_node("listener", "aaf-listener", aaf_listener_main, V({"-i", "eth0", "-d", kMacStream}), true);
+        w.add_node("talker", "aaf-talker", PICK(aaf_talker_main), V({"-i", "eth0", "-d", kMacStream, "-m", mtt.c_str()}), false);
+        rs.listener = w.add_node("listener", "aaf-listener", PICK(aaf_listener_main), V({"-i", "eth0", "-d", kMacStream}), true);
     } else if (p.scen == "hello") {
         std::vector<std::string> ta, la;
         if (p.tscf) add(ta, {"-t"});
         if (p.udp) { add(ta, {"-u", "-n", "10.0.0.2:17220"}); add(la, {"-u", "-p", "17220"}); }
         else { add(ta, {"-i", "eth0", "-d", kMacStream}); add(la, {"-i", "eth0", "-d", kMacStream}); }
-        w.add_node("talker", "hello-world-talker", hello_world_talker_main, ta, false);
-        rs.listener = w.add_node("listener", "hello-world-listener", hello_world_listener_main, la, true);
+        w.add_node("talker", "hello-world-talker", PICK(hello_world_talker_main), ta, false);
+        rs.listener = w.add_node("listener", "hello-world-listener", PICK(hello_world_listener_main), la, true);
     } else if (p.scen == "vss") {
         std::vector<std::string> ta, la;
         if (p.tscf) add(ta, {"-t"});
         if (p.udp) { add(ta, {"-u", "10.0.0.2:17220"}); add(la, {"-u", "-p", "17220"}); }
         else { add(ta, {"eth0", kMacStream}); add(la, {"eth0", kMacStream}); }
-        w.add_node("talker", "acf-vss-talker", acf_vss_talker_main, ta, false);
-        rs.listener = w.add_node("listener", "acf-vss-listener", acf_vss_listener_main, la, true);
+        w.add_node("talker", "acf-vss-talker", PICK(acf_vss_talker_main), ta, false);
+        rs.listener = w.add_node("listener", "acf-vss-listener", PICK(acf_vss_listener_main), la, true);
     } else if (p.scen == "crfL") {
-        w.add_node("talker", "crf-talker", crf_talker_main, V({"-i", "eth0", "-d", kMacCrf, "-m", mtt.c_str()}), false);
+        w.add_node("talker", "crf-talker", PICK(crf_talker_main), V({"-i", "eth0", "-d", kMacCrf, "-m", mtt.c_str()}), false);
         w.add_node("aafsrc", "crf-listener", crf_listener_b_main,
                    V({"-i", "eth0", "-c", kMacCrf, "-a", kMacStream, "-o", "talker", "-m", mtt.c_str()}), false);
-        rs.listener = w.add_node("listener", "crf-listener", crf_listener_main,
+        rs.listener = w.add_node("listener", "crf-listener", PICK(crf_listener_main),
                                  V({"-i", "eth0", "-c", kMacCrf, "-a", kMacStream, "-o", "listener"}), true);
     } else if (p.scen == "crfT") {
-        w.add_node("talker", "crf-talker", crf_talker_main, V({"-i", "eth0", "-d", kMacCrf, "-m", mtt.c_str()}), false);
-        rs.listener = w.add_node("listener", "crf-listener", crf_listener_main,
+        w.add_node("talker", "crf-talker", PICK(crf_talker_main), V({"-i", "eth0", "-d", kMacCrf, "-m", mtt.c_str()}), false);
+        rs.listener = w.add_node("listener", "crf-listener", PICK(crf_listener_main),
                                  V({"-i", "eth0", "-c", kMacCrf, "-a", kMacStream, "-o", "talker", "-m", mtt.c_str()}), true);
     } else {
         harness_error("unknown scenario " + p.scen);
@@ -361,6 +378,11 @@ static void apply_transport(RunState &rs, int node, Frame &f) {
     std::vector<Copy> copies;
     bool dropped = false;
     Frame cur = f;
+    if (p.ethpad && !cur.udp && cur.data.size() < 46) {  // Ethernet minimum payload: the NIC pads, a packet socket delivers the padding
+        cur.data.resize(46, 0);
+        f.data = cur.data;
+        w.count("fault.ethpad");
+    }
     uint64_t extra_delay = 0;
     std::vector<uint64_t> dup_delays;
     for (auto &m : p.mut) {
